@@ -172,8 +172,9 @@ func OnceDo(site int, o *sync.Once, f func()) {
 	t.req = request{kind: opOnce, site: site, obj: uintptr(unsafe.Pointer(o)), keep: o}
 	t.call()
 	if t.resp.idx == 1 {
+		// a Once counts as done even if f panics
+		defer t.addNote(note{kind: noteOnceDone, obj: uintptr(unsafe.Pointer(o)), keep: o})
 		o.Do(f)
-		t.addNote(note{kind: noteOnceDone, obj: uintptr(unsafe.Pointer(o)), keep: o})
 		return
 	}
 	o.Do(func() {})
@@ -240,6 +241,22 @@ func RecvWait(site int, ch interface{}) {
 	}
 	t.req = request{kind: opRecv, site: site, keep: ch}
 	t.call()
+	acquireFor(t)
+}
+
+// acquireFor: the task is about to receive from a channel. If it is the done channel of a context or the channel
+// of a timer (the scheduler has looked that up), the task acquires what a real context / timer would hand to the
+// receiver.
+//
+//go:norace
+func acquireFor(t *Task) {
+	if c := t.resp.actx; c != nil && c.err != nil {
+		acquireCtx(c)
+	}
+	if tm := t.resp.atm; tm != nil {
+		raceAcquire(tm.syncAddr())
+	}
+	t.resp.actx, t.resp.atm = nil, nil
 }
 
 // PreClose precedes close(ch).
@@ -278,6 +295,7 @@ func Select(site int, hasDefault bool, chans ...interface{}) int {
 	}
 	t.req = request{kind: opSelect, site: site, hasDefault: hasDefault, chans: cp}
 	t.call()
+	acquireFor(t)
 	return t.resp.idx
 }
 
